@@ -65,6 +65,10 @@ def tla_cfg(sc, status_texts=None):
            "route": sc["driver"].get("route", [])}
     cfg = {"k": "cfg", "target": tgt, "driver": drv, "has_project": 1 if sc.get("project") else 0}
     cfg["status_texts"] = status_texts or []
+    from pycomm3.cip import EXTERNAL_ACCESS
+    cfg["access_texts"] = [[k, cps(v)] for k, v in EXTERNAL_ACCESS.items() if isinstance(k, int)]
+    cfg["fw"] = (sc["target"].get("identity") or {}).get("rev_major", 0)
+    cfg["all_programs"] = 1 if sc["driver"].get("init_program_tags", True) else 0
     if sc.get("project"):
         cfg["project"], cfg["mem"] = tla_project(sc["project"], sc["mem"])
     return cfg
@@ -72,7 +76,7 @@ def tla_cfg(sc, status_texts=None):
 
 def slim_event(e):
     if e["k"] == "ret":
-        return {k: v for k, v in e.items() if k not in ("tb", "tstate", "view")}
+        return {k: v for k, v in e.items() if k not in ("tb", "tstate")}
     return e
 
 
